@@ -72,13 +72,13 @@ def task_pe(ctx, cfg, levels, lname, kind, sa, sb, seed, step=False):
   rng = np.random.default_rng(13)
   tref_si = np.linspace(220.0, 290.0, K)
   oro_si = rng.uniform(-800, 800, grid.modal_shape) * base             # metres (modal)
-  cls = pe.MoistPrimitiveEquations if kind == 'moist' else pe.PrimitiveEquations
+  cls = {'moist': pe.MoistPrimitiveEquations, 'cloud': pe.MoistPrimitiveEquationsWithCloudMoisture}.get(kind, pe.PrimitiveEquations)
   mk_eq = lambda specs, coords: cls(np.asarray(specs.nondimensionalize(tref_si * u.degK)),
                                     np.asarray(specs.nondimensionalize(oro_si * u.m)), coords, specs)
   eqA = mk_eq(specsA, coordsA); eqB = mk_eq(specsB, coordsB)
   ctx.encoded(cls.explicit_terms, cls.implicit_terms, cls.implicit_inverse, pe.PrimitiveEquationsSpecs.from_si, scales.Scale.nondimensionalize,
               scales.Scale._scaling_factor, pe.get_geopotential_diff, pe.get_temperature_implicit)
-  tracers = ['specific_humidity'] if kind == 'moist' else []
+  tracers = {'moist': ['specific_humidity'], 'cloud': ['specific_humidity', 'specific_cloud_liquid_water_content', 'specific_cloud_ice_water_content']}.get(kind, [])
   sp = Space(bits=10)
   # state in scale-A numbers; boxes chosen so that the SI magnitudes are atmospheric (vorticity ~1e-5/s * T_A ...)
   LA, TA, MA, HA = base_si(sA)
@@ -95,7 +95,7 @@ def task_pe(ctx, cfg, levels, lname, kind, sa, sb, seed, step=False):
 
   def mk(v, d, t, p, *q):
     trd = dict(zip(tracers, q))
-    if kind == 'moist':
+    if kind in ('moist', 'cloud'):
       return pe.StateWithTime(v, d, t, p, 0.0, trd)
     return pe.State(v, d, t, p, trd)
 
@@ -278,6 +278,7 @@ def make_tasks(tier, seed):
   add(cfgf, 'dy2', 'dry', 'atmospheric', 'seeded')
   add(cfg, 'dy2', 'moist', 'default', 'odd')
   add(cfg, 'dy2', 'moist', 'si', 'seeded')
+  add(cfg, 'dy2', 'cloud', 'default', 'odd')        # cloud-condensate variant (liquid / ice loading in the virtual temperature)
   for one in ('time', 'length', 'mass', 'temperature'):
     add(cfg, 'dy2', 'moist' if one in ('mass', 'temperature') else 'dry', 'default', f'default_{one}_only')
   tasks.append(dict(name='held-suarez-default-time-only', fn='task_held_suarez', kw=dict(cfg=cfg, levels=LS['dy2'].tolist(), lname='dy2', sa='default', sb='default_time_only', seed=seed)))
